@@ -1544,7 +1544,7 @@ pub fn check_mat3(c: &Case2, obs: &mut Obs) -> Check {
 pub fn run(cx: &mut Ctx) {
     cx.assume("apply and apply_pt both multiply with an implicit homogeneous 1 in this version (doc comments of Mat3x3/Mat4x4::apply and the crate's `translation` tests); 'linear part on vectors' is asserted for the maps that are linear (scale, rotations, shears, basis changes), where it coincides with M(v,1)");
     cx.assume("rotation senses are those of the crate's unit tests: rotate_x(90 deg) takes +z to +y, rotate_y(90 deg) +x to +z, rotate_z(90 deg) +y to +x; orient_y(new_y, x) maps z to unit(x × new_y), orient_z(new_z, x) maps y to unit(new_z × x) (tests orientation_y_to_z / orientation_z_to_y)");
-    cx.assume("inverse() documents a debug-mode panic for |det| <= f32::EPSILON: inverse/determinant products are cut to the longest prefix with cond_2(linear 3x3 part) <= 1e3 and |det| in [1e-3, 1e3] (DESIGN D-f); translations are unrestricted (+-100 per factor) because every tolerance is componentwise");
+    cx.assume("inverse() documents a debug-mode panic for |det| <= f32::EPSILON: inverse/determinant products are cut to the longest prefix with cond_2(linear 3x3 part) <= 1e3 and |det| in [1e-3, 1e3] (DESIGN D-f; the separate inverse-large-scale sub-check covers well-conditioned maps whose determinant is huge or overflows — only a SMALL determinant is a documented reason to panic); translations are unrestricted (+-100 per factor) because every tolerance is componentwise");
     cx.assume("tolerances: 1e-5 * (|F_k|…|F_0|)_ij for products, 1e-5 * (|A||A⁻¹||A||A⁻¹|)_ij for M∘M⁻¹ (first-order bound of Gauss-Jordan with partial pivoting in f32; at most 1e-5*cond^2-like), 1e-5 * permanent(|A|) for determinants, 2e-6 * |M||(v,1)| for a single matrix-vector product; angles enter the oracle as degs(d).to_rads() (unit conversion is C18's subject)");
     cx.assume("orient_y/orient_z inputs: the x hint is at least ~63 degrees away from the new axis (the documented construction normalises x × new_axis, which loses all accuracy when they are parallel); rotations sub-check uses unit inputs ('if new_y and x are unit vectors, the result is orthonormal')");
 
@@ -1580,6 +1580,74 @@ pub fn run(cx: &mut Ctx) {
     cx.prop_check("rotations", n, rot_case, |c, obs| check_rotation(c, obs));
     let n = cx.n(150_000, 2_000_000);
     cx.prop_check("mat3", n, case2, |c, obs| check_mat3(c, obs));
+    let n = cx.n(100_000, 2_000_000);
+    cx.prop_check("inverse-large-scale", n, big_case, |c, obs| check_big(c, obs));
+}
+
+// ------------------------------------------------------------------ inverse at large magnitudes
+
+/// A rigid rotation times a (nearly) uniform scaling of large magnitude, plus a translation: perfectly conditioned, but the
+/// determinant (cubic in the scale) overflows f32 long before any matrix element does.
+#[derive(Clone, Debug, Serialize, Deserialize)]
+pub struct BigCase {
+    /// rotation angles about x, y, z in degrees
+    pub rot: [X; 3],
+    /// scale factors (same order of magnitude)
+    pub scale: [X; 3],
+    pub trans: [X; 3],
+    pub probe: [X; 3],
+}
+
+pub fn big_case() -> BoxedStrategy<BigCase> {
+    let ang = || prop_oneof![1 => Just(0.0f32), 1 => Just(90.0f32), 4 => -180.0f32..180.0];
+    let mag = prop_oneof![2 => Just(1e13f32), 1 => Just(7.5e12f32), 6 => log_uniform(3.0, 15.0)];
+    (mag, [ang(), ang(), ang()], [0.5f32..2.0, 0.5f32..2.0, 0.5f32..2.0], [any::<bool>(), any::<bool>(), any::<bool>()], [-10.0f32..10.0, -10.0f32..10.0, -10.0f32..10.0], [-1.0f32..1.0, -1.0f32..1.0, -1.0f32..1.0])
+        .prop_map(|(m, rot, f, neg, trans, probe)| BigCase {
+            rot: xs(rot),
+            scale: xs([0, 1, 2].map(|i| m * f[i] * if neg[i] { -1.0 } else { 1.0 })),
+            trans: xs(trans),
+            probe: xs(probe),
+        })
+        .boxed()
+}
+
+pub fn check_big(c: &BigCase, obs: &mut Obs) -> Check {
+    let r = fs(c.rot);
+    let sc = fs(c.scale);
+    let t = fs(c.trans);
+    let m: Mat4x4<RealToReal<3>> = rotate_x(degs(r[0])).then(&rotate_y(degs(r[1]))).then(&rotate_z(degs(r[2]))).then(&scale(vec3(sc[0], sc[1], sc[2]))).then(&translate(vec3(t[0], t[1], t[2])));
+    let det = sc.iter().map(|v| *v as f64).product::<f64>();
+    obs.class(if det.abs() > 3.4e38 { "determinant overflows f32" } else { "determinant representable" });
+    let inv = match catch(|| m.inverse()) {
+        Ok(i) => i,
+        Err(p) => fail!("inverse-panic", "inverse() of a rotation x scaling {sc:?} x translation (perfectly conditioned, every element finite) panicked: {p}"),
+    };
+    ensure!(inv.0.iter().flatten().all(|e| e.is_finite()), "inverse-not-finite", "inverse of rotation x scaling {sc:?} has non-finite elements");
+    // both orders give the identity (the translation column carries |t| * eps of cancellation noise)
+    let tol = 1e-4;
+    for (name, p) in [("m∘m⁻¹", m.compose(&inv)), ("m⁻¹∘m", inv.compose(&m))] {
+        for i in 0..4 {
+            for j in 0..4 {
+                let want = if i == j { 1.0 } else { 0.0 };
+                let scale_ij = if j == 3 && i < 3 && name == "m∘m⁻¹" { 1.0 + t[i].abs() } else { 1.0 };
+                let e = (p.0[i][j] - want).abs() as f64;
+                obs.max("large-scale inverse: |M M^-1 - I| (bound 1e-4)", e / scale_ij as f64);
+                ensure!(e <= tol * scale_ij as f64, "inverse-not-identity", "{name}[{i}][{j}] = {} for rotation {r:?} x scaling {sc:?} x translation {t:?}", p.0[i][j]);
+            }
+        }
+    }
+    // and the round trip of a probe point
+    let v = vec3(c.probe[0].0, c.probe[1].0, c.probe[2].0);
+    let back = inv.apply(&m.apply(&v));
+    for k in 0..3 {
+        ensure!((back.0[k] - v.0[k]).abs() <= 1e-3, "inverse-round-trip", "inverse(m).apply(m.apply({:?})) = {:?}", v.0, back.0);
+    }
+    obs.nontrivial(hash_of(&(c.rot, c.scale, c.trans)));
+    if obs.wants_sample() {
+        let cc = c.clone();
+        obs.sample(|| json!(cc));
+    }
+    Ok(())
 }
 
 pub fn replay(sub: &str, case: &Value) -> Check {
@@ -1595,6 +1663,7 @@ pub fn replay(sub: &str, case: &Value) -> Check {
         "determinant" => check_det(&de(case)?, &mut obs),
         "rotations" => check_rotation(&de(case)?, &mut obs),
         "mat3" => check_mat3(&de(case)?, &mut obs),
+        "inverse-large-scale" => check_big(&de(case)?, &mut obs),
         _ => Err(Fail::new("bad-replay", format!("unknown subcheck {sub}"))),
     }
 }
